@@ -3,6 +3,7 @@
   same order.
 -/
 import OlVerif.Import.Model
+import OlVerif.Import.Seq
 
 namespace OlVerif.C14
 
@@ -49,5 +50,55 @@ theorem load_idem (st : ImpSt) (m : ModName) : (st.load m).load m = st.load m :=
     binds `pk` to the package -/
 example : pyImport {} ["pk", "sub", "deep"] none =
     ({ loaded := [["pk"], ["pk", "sub"], ["pk", "sub", "deep"]] }, "pk", .module ["pk"]) := by decide
+
+/-! ### whole import programs -/
+
+theorem step_eq (sub : IsSubmodule) (s : ImpSt × ImpEnv) (x : ImpStep) (h : x.WF) : olStep sub s x = pyStep sub s x := by
+  cases x with
+  | imp name a => simp only [olStep, pyStep, import_stmt s.1 name a h]
+  | fromName m n a => simp only [olStep, pyStep, from_import]
+
+/-- **any sequence of import statements**, from any import state and any environment: the emitted calls load the
+    same modules in the same order and leave the same bindings (shadowing included) as the statements do -/
+theorem import_program (sub : IsSubmodule) (s : ImpSt × ImpEnv) (p : List ImpStep) (h : ∀ x ∈ p, x.WF) :
+    olRun sub s p = pyRun sub s p := by
+  simp only [olRun, pyRun]
+  induction p generalizing s with
+  | nil => rfl
+  | cons x rest ih =>
+    simp only [List.foldl_cons]
+    rw [step_eq sub s x (h x (by simp))]
+    exact ih _ (fun y hy => h y (by simp [hy]))
+
+/-- the emitted calls never unload or reorder a module: what was loaded before stays a prefix of what is loaded
+    after, and no module is loaded (its top-level code run) twice -/
+theorem ol_step_loaded (sub : IsSubmodule) (s : ImpSt × ImpEnv) (x : ImpStep) :
+    s.1.loaded <+: (olStep sub s x).1.loaded ∧ (s.1.loaded.Nodup → (olStep sub s x).1.loaded.Nodup) := by
+  cases x with
+  | imp name a =>
+    simp only [olStep, olImport, builtinImportTop, importModule]
+    split <;> exact ⟨importChain_prefix _ _ _, importChain_nodup _ _ _⟩
+  | fromName m n a =>
+    simp only [olStep, olFromName]
+    split
+    · exact ⟨load_prefix _ _, load_nodup _ _⟩
+    · exact ⟨List.prefix_refl _, id⟩
+
+theorem ol_run_loaded (sub : IsSubmodule) (s : ImpSt × ImpEnv) (p : List ImpStep) :
+    s.1.loaded <+: (olRun sub s p).1.loaded ∧ (s.1.loaded.Nodup → (olRun sub s p).1.loaded.Nodup) := by
+  simp only [olRun]
+  induction p generalizing s with
+  | nil => exact ⟨List.prefix_refl _, id⟩
+  | cons x rest ih =>
+    simp only [List.foldl_cons]
+    obtain ⟨h1, h2⟩ := ol_step_loaded sub s x
+    obtain ⟨h3, h4⟩ := ih (olStep sub s x)
+    exact ⟨List.IsPrefix.trans h1 h3, fun hn => h4 (h2 hn)⟩
+
+/-- non-vacuity: `import pk.sub as s; from pk import sub, v; import pk.sub.deep` -/
+example : olRun (fun m n => m == ["pk"] && n == "sub") ({}, [])
+    [.imp ["pk", "sub"] (some "s"), .fromName ["pk"] "sub" none, .fromName ["pk"] "v" none, .imp ["pk", "sub", "deep"] none] =
+    ({ loaded := [["pk"], ["pk", "sub"], ["pk", "sub", "deep"]] },
+     [("pk", .module ["pk"]), ("v", .attr ["pk"] "v"), ("sub", .module ["pk", "sub"]), ("s", .module ["pk", "sub"])]) := by decide
 
 end OlVerif.C14
